@@ -14,7 +14,34 @@ verus!{
         r is Ok <==> (forall |i: int| 0 <= i < s@.len() ==> crate::header::sig_encodable(#[trigger] s@[i])),
         r matches Ok(v) ==> (v matches Value::Array(a) && a@.len() == s@.len() && forall |i: int| 0 <= i < a@.len() ==> vv(#[trigger] a@[i]) == crate::header::sig_cv(s@[i])),
 { crate::util::to_cbor_array(s) }
-#[verifier::external_body] pub fn recipient_from_cbor_value__stub(v: Value) -> Result<CoseRecipient> { CoseRecipient::from_cbor_value(v) }
-#[verifier::external_body] pub fn recipients_to_cbor_array__stub(s: alloc::vec::Vec<CoseRecipient>) -> Result<Value> { crate::util::to_cbor_array(s) }
+#[verifier::external_body] pub fn recipient_from_cbor_value__stub(v: Value) -> (r: Result<CoseRecipient>)
+    ensures (r is Ok <==> crate::encrypt::recipient_ok(v)) && (r matches Ok(x) ==> crate::encrypt::recipient_res(v, x)),
+{ CoseRecipient::from_cbor_value(v) }
+#[verifier::external_body] pub fn recipients_to_cbor_array__stub(s: alloc::vec::Vec<CoseRecipient>) -> (r: Result<Value>)
+    ensures r is Ok <==> crate::encrypt::recipients_encodable(s@), r matches Ok(v) ==> vv(v) == crate::encrypt::recipients_cv(s@),
+{ crate::util::to_cbor_array(s) }
+// ---- A-REC: each stub's contract is met by the real callee (partial-correctness rule for the cut back edges)
+pub fn check_recipient_from_cbor_value_stub(v: Value) -> (r: Result<CoseRecipient>)
+    ensures (r is Ok <==> crate::encrypt::recipient_ok(v)) && (r matches Ok(x) ==> crate::encrypt::recipient_res(v, x)),
+{ CoseRecipient::from_cbor_value(v) }
+pub fn check_recipients_to_cbor_array_stub(s: alloc::vec::Vec<CoseRecipient>) -> (r: Result<Value>)
+    ensures r is Ok <==> crate::encrypt::recipients_encodable(s@), r matches Ok(v) ==> vv(v) == crate::encrypt::recipients_cv(s@),
+{
+    let r = crate::util::to_cbor_array(s);
+    proof { if r is Ok { crate::encrypt::lemma_recipients_array(s, r->Ok_0); } else { crate::encrypt::lemma_recipients_array_err(s, r->Err_0); } }
+    r
+}
+pub fn check_sig_to_cbor_value_stub(s: CoseSignature) -> (r: Result<Value>)
+    ensures r is Ok <==> crate::header::sig_encodable(s), r matches Ok(v) ==> vv(v) == crate::header::sig_cv(s),
+{ s.to_cbor_value() }
+pub fn check_sigs_to_cbor_array_stub(s: alloc::vec::Vec<CoseSignature>) -> (r: Result<Value>)
+    ensures
+        r is Ok <==> (forall |i: int| 0 <= i < s@.len() ==> crate::header::sig_encodable(#[trigger] s@[i])),
+        r matches Ok(v) ==> (v matches Value::Array(a) && a@.len() == s@.len() && forall |i: int| 0 <= i < a@.len() ==> vv(#[trigger] a@[i]) == crate::header::sig_cv(s@[i])),
+{
+    broadcast use crate::util::axiom_iter_enc_ok_vec;
+    broadcast use crate::util::axiom_iter_enc_err_vec;
+    crate::util::to_cbor_array(s)
+}
 }
 }
